@@ -6,6 +6,7 @@ import (
 	"bytes"
 	"errors"
 	"fmt"
+	"math"
 	"net"
 	"net/netip"
 	"strconv"
@@ -126,6 +127,51 @@ func (f c20Field) apply(l *fastlog.Line) string {
 	case "duration":
 		l.Duration(f.Name, time.Duration(f.I))
 		return pre + time.Duration(f.I).String()
+	case "stringer": // the reference is the value's own String(): what the appender documents it writes
+		var v fmt.Stringer
+		switch f.U % 4 {
+		case 0:
+			v = time.Duration(f.I)
+		case 1:
+			v = netip.MustParseAddr(f.S)
+		case 2:
+			v = net.HardwareAddr(f.B)
+		default: // a type that implements both fmt.Stringer and fastlog.FastLog, with different texts
+			v = packet.Addr{MAC: net.HardwareAddr(f.B), IP: netip.MustParseAddr(f.S), Port: uint16(f.I)}
+		}
+		l.Stringer(v)
+		return " " + v.String()
+	case "bytes":
+		l.Bytes(f.Name, f.B)
+		return pre + string(f.B)
+	case "sprintf":
+		var v interface{}
+		switch f.U % 3 {
+		case 0:
+			v = f.I
+		case 1:
+			v = struct {
+				A int
+				B string
+			}{int(f.I), f.S}
+		default:
+			v = f.Strs
+		}
+		l.Sprintf(f.Name, v)
+		return pre + fmt.Sprintf("%+v", v)
+	case "module":
+		l.Module(f.Name, f.S)
+		r := "\n" + modulePrefix(f.Name)
+		if f.Name == "" {
+			r = "\n"
+		}
+		if f.S != "" {
+			r += ` "` + f.S + `"`
+		}
+		return r
+	case "lf":
+		l.LF()
+		return "\n"
 	case "time":
 		tm := time.Unix(f.I/1000, (f.I%1000)*1e6)
 		l.Time(f.Name, tm)
@@ -392,9 +438,17 @@ func c20GenIP6(t *rapid.T) string {
 	return netip.AddrFrom16(a).String()
 }
 
+// c20GenDuration: everyday values, the boundaries of the unit switches, whole seconds at and beyond 2^31 / 2^32 seconds,
+// the extremes and negative values.
+func c20GenDuration(t *rapid.T) int64 {
+	return rapid.OneOf(rapid.Int64Range(0, int64(48*time.Hour)), rapid.SampledFrom([]int64{0, 1, 999, 1000, int64(time.Second), int64(90 * time.Minute), -5e9,
+		int64(1<<31) * int64(time.Second), (int64(1<<32) - 1) * int64(time.Second), int64(1<<32) * int64(time.Second), (int64(1<<32) + 61) * int64(time.Second), int64(150*365*24) * int64(time.Hour),
+		math.MaxInt64, math.MinInt64, -int64(1<<32) * int64(time.Second)}), rapid.Int64()).Draw(t, "dur")
+}
+
 func c20GenField(t *rapid.T) c20Field {
 	f := c20Field{Name: rapid.SampledFrom(c20Names).Draw(t, "name")}
-	f.Kind = rapid.SampledFrom([]string{"uint8", "uint8hex", "uint16", "uint16hex", "uint32", "int", "bool", "string", "mac", "bytearray", "ip", "ipslice", "duration", "time", "error", "label", "strarray", "iparray"}).Draw(t, "kind")
+	f.Kind = rapid.SampledFrom([]string{"uint8", "uint8hex", "uint16", "uint16hex", "uint32", "int", "bool", "string", "mac", "bytearray", "ip", "ipslice", "duration", "time", "error", "label", "strarray", "iparray", "stringer", "bytes", "sprintf", "module", "lf"}).Draw(t, "kind")
 	switch f.Kind {
 	case "uint8", "uint8hex":
 		f.U = uint64(rapid.Byte().Draw(t, "u8"))
@@ -428,7 +482,28 @@ func c20GenField(t *rapid.T) c20Field {
 			f.S = c20GenIP6(t)
 		}
 	case "duration":
-		f.I = rapid.OneOf(rapid.Int64Range(0, int64(48*time.Hour)), rapid.SampledFrom([]int64{0, 1, 999, 1000, int64(time.Second), int64(90 * time.Minute), -5e9})).Draw(t, "dur")
+		f.I = c20GenDuration(t)
+	case "stringer":
+		f.U = uint64(rapid.IntRange(0, 3).Draw(t, "sk"))
+		f.I = c20GenDuration(t)
+		f.S = rapid.OneOf(rapid.Just("192.168.0.7"), rapid.Just("::ffff:10.0.0.1"), rapid.Just("fe80::1%eth0"), rapid.Custom(c20GenIP6)).Draw(t, "sip")
+		f.B = gen.Bytes(t, 6, "smac")
+		if f.U == 3 {
+			f.I = int64(rapid.Uint16().Draw(t, "port"))
+			if strings.Contains(f.S, "%") {
+				f.S = "fe80::1"
+			}
+		}
+	case "bytes":
+		f.B = []byte(rapid.StringOfN(rapid.RuneFrom([]rune("abcxyz012 .-=")), 0, 40, -1).Draw(t, "bv"))
+	case "sprintf":
+		f.U = uint64(rapid.IntRange(0, 2).Draw(t, "pk"))
+		f.I = rapid.Int64().Draw(t, "pi")
+		f.S = rapid.StringOfN(rapid.RuneFrom([]rune("abc xyz")), 0, 12, -1).Draw(t, "ps")
+		f.Strs = rapid.SliceOfN(rapid.SampledFrom([]string{"a", "", "b c"}), 0, 3).Draw(t, "pl")
+	case "module":
+		f.Name = rapid.SampledFrom([]string{"dhcp4", "arp", "packet", "x"}).Draw(t, "mname")
+		f.S = rapid.SampledFrom([]string{"", "msg", "two words"}).Draw(t, "mmsg")
 	case "time":
 		f.I = rapid.Int64Range(0, 4102444800000).Draw(t, "ms")
 	case "strarray":
